@@ -1,6 +1,7 @@
 """C16 - Standardize normalises with exactly the statistics it was given."""
 
 import ast
+from fractions import Fraction
 
 from .. import astq
 from .. import sym as S
@@ -11,6 +12,7 @@ from ..report import MISSING
 from ..model import AnalysisError
 from ..symeval import SymEval
 from . import cli_common as cc
+from .. import scenario as SC
 from .c04 import attr_writes, must_reinit
 
 LEVEL = "other"
@@ -33,6 +35,8 @@ REGIONS = {"count": "self._stats[0, -1]", "sums": "self._stats[0, :-1]", "square
 
 def run(ctx):
     ctx.rule(additive)
+    ctx.rule(acc_values)
+    ctx.rule(apply_values)
     ctx.rule(slots)
     ctx.rule(appliers)
     ctx.rule(derived_state)
@@ -100,15 +104,11 @@ def slots(ctx, R="R-C16-slots"):
             if isinstance(n, ast.AugAssign) and isinstance(n.target, ast.Subscript) and astq.is_self_attr(n.target.value, f.params[0], "_stats"):
                 reg = want_regions.get(_region(n.target))
                 if reg is None:
-                    ctx.bad(R, f, n, "an unexpected region of the statistics matrix is updated: %s" % astq.text(n.target), "only count / sums / squares are updated")
-                    continue
+                    continue  # decided on values by acc_values
                 seen.setdefault(reg, []).append(n)
         for reg in REGIONS:
-            ctx.check(len(seen.get(reg, [])) >= 1, R, f, f.node, "%s updates the %s region" % (name, reg), "%s never updates the %s region %s" % (name, reg, REGIONS[reg]))
-        for n in seen.get("count", []):
-            txt = astq.text(n.value).replace(" ", "")
-            ok = txt == "1" if name.endswith("vector") else txt == "np.prod(tuple((%s.shape[idx]foridxinother_axes)))" % arr
-            ctx.check(ok, R, f, n, "the count grows by the number of feature vectors added", "count increment is %s" % astq.text(n.value))
+            ctx.check(len(seen.get(reg, [])) >= 1, R, f, f.node, "%s updates the %s region" % (name, reg), "%s never updates the %s region %s" % (name, reg, REGIONS[reg]),
+                      structural=True)
         for reg in ("sums", "squares"):
             for n in seen.get(reg, []):
                 tags = dt.of(n.value)
@@ -117,93 +117,392 @@ def slots(ctx, R="R-C16-slots"):
                               reg, astq.text(n.value)[:70], sorted(tags),
                               "squares of narrow integer inputs wrap around and float32 inputs lose precision" if reg == "squares" else
                               "float32 inputs are summed in float32"))
-                # the squares are squares of the data, the sums are the data
-                calls = [x for x in ast.walk(n.value) if isinstance(x, ast.Call)]
-                has_sq = any(prog.qualify(f.module, x.func, f) == "numpy.square" or (isinstance(x.func, ast.Attribute) and x.func.attr == "square") for x in calls) or \
-                    any(isinstance(x, ast.BinOp) and isinstance(x.op, ast.Pow) for x in ast.walk(n.value))
-                ctx.check(has_sq == (reg == "squares"), R, f, n, "%s region accumulates %s" % (reg, "x^2" if reg == "squares" else "x"),
-                          "%s region is incremented by %s" % (reg, astq.text(n.value)[:70]))
-                if name.endswith("tensor"):
-                    ok = "axis=other_axes" in astq.text(n.value).replace(" ", "")
-                    ctx.check(ok, R, f, n, "the tensor is reduced over all axes but the coefficient axis", "%s increment is not reduced over other_axes" % reg)
-    f = prog.own_method(c, "_accumulate_tensor")
-    oa = [n for n in f.body_nodes() if isinstance(n, ast.Assign) and astq.is_name(n.targets[0], "other_axes")]
-    ok = len(oa) == 1 and astq.eq_text(oa[0].value, "tuple((idxforidxinrange(len(tensor.shape))ifidx!=axis%len(tensor.shape)))")
-    ctx.check(ok, R, f, oa[0] if oa else MISSING(f.node), "other_axes are all axes but the (normalised) coefficient axis")
 
 
 def appliers(ctx, R="R-C16-apply"):
+    """apply dispatches to the vector / tensor body with its arguments unchanged (forward-substituted return values)"""
     prog = ctx.prog
     c = _std(prog)
-    st = S.sym("self._stats")
+    ap = prog.own_method(c, "apply")
+    ev = SymEval(prog, ap).run()
+    ft, ax, ip = (S.sym(p_) for p_ in ap.params[1:4])
+    want = {S.call("._apply_tensor", S.sym(ap.params[0]), ft, ax, ip), S.call("._apply_vector", S.sym(ap.params[0]), ft, ip)}
+    got = {v for _, v, _ in ev.returns}
+    if got == want:
+        ctx.ok(R, ap.loc(), "apply forwards features, axis and in_place unchanged to the vector / tensor body")
+    else:
+        calls = set()
+        for v in got:
+            calls |= SC.vocabulary(v)[0]
+        if calls <= {"._apply_tensor", "._apply_vector"} and not any(S.has_unknown(v) or SC.residual_conditions(v) for v in got):
+            ctx.bad(R, ap, ap.node, "apply returns %s" % sorted(S.show(v)[:80] for v in got), "apply forwards features, axis and in_place unchanged to the vector / tensor body")
+        else:
+            ctx.error(R, "cannot decide how apply dispatches: %s" % sorted(S.show(v)[:80] for v in got))
 
-    def g(*idx):
-        return S.call("getitem", st, S.call("tuple", *idx))
 
-    count = g(S.ZERO, S.lift(-1))
-    sums = g(S.ZERO, S.call("slice", S.NONE, S.lift(-1), S.NONE))
-    sq = g(S.ONE, S.call("slice", S.NONE, S.lift(-1), S.NONE))
-    mean_w = S.truediv(sums, count)
-    var_w = S.sub(S.truediv(sq, count), S.power(mean_w, S.lift(2)))
+# ------------------------------------------------------------------ value rules (scenario evaluation, DESIGN 10.6)
+_ST = S.sym("self._stats")
+
+
+def _g(base, *idx):
+    return S.call("getitem", base, S.call("tuple", *idx))
+
+
+_SL = S.call("slice", S.NONE, S.lift(-1), S.NONE)
+_REG = {"count": (S.ZERO, S.lift(-1)), "sums": (S.ZERO, _SL), "squares": (S.ONE, _SL)}
+
+
+def _spec(e, arr, stats_none=None, have=None, norm_var=None, ip=None, f64=None, anyzero=None, rank=None, axis=None, single=None, dims_match=True):
+    count = _g(_ST, *_REG["count"])
+
+    def strip(x):
+        while SC.is_call(x, ".astype"):
+            x = x.args[1]
+        return x
+
+    def fn(x):
+        if x.op == "sym":
+            nm = x.args[0]
+            if nm == "in_place" and ip is not None:
+                return S.lift(ip)
+            if nm == "self._norm_var" and norm_var is not None:
+                return S.lift(norm_var)
+            if nm == "axis" and axis is not None:
+                return S.lift(axis)
+            if nm == arr + ".ndim" and rank is not None:
+                return S.lift(rank)
+            return None
+        if x.op == "cmp":
+            op, a, b = x.args
+            if op in ("is", "is not") and a == _ST and b == S.NONE and stats_none is not None:
+                return S.lift(stats_none == (op == "is"))
+            if op in ("==", "!=") and {S.show(a), S.show(b)} & {arr + ".dtype"} and {S.show(a), S.show(b)} & {"numpy.float64", "np.float64"} and f64 is not None:
+                return S.lift(f64 == (op == "=="))
+            if op in ("==", "!=") and any(S.show(y).startswith("getitem(self._stats.shape, 1)") for y in (a, b)):
+                return S.lift((op == "==") == dims_match)  # scenario: the coefficient count matches (or not) the stored width
+            if op in ("==", "!=") and single is not None and any(SC.is_call(y, "sum") for y in (a, b)):
+                return S.lift(single == (op == "=="))
+            return None
+        if x.op in ("and", "or", "not", "bool", "cond") and have is not None:
+            pos = range(len(x.args)) if x.op != "cond" else (0,)
+            args = list(x.args)
+            hit = False
+            for i in pos:
+                if args[i] == count:
+                    args[i] = S.lift(have)
+                    hit = True
+            if hit:
+                return S.rebuild(x.op, args)
+        if x.op == "call":
+            nm = x.args[0]
+            if nm in ("np.any", "numpy.any", ".any") and anyzero is not None and any(SC.is_call(y, "np.isclose", "numpy.isclose") for y in S.walk(x)):
+                return S.lift(anyzero)
+            if nm in (".shape", ".ndim") and len(x.args) == 2:
+                inner = strip(x.args[1])
+                if inner.op == "sym":
+                    return fn(S.sym(inner.args[0] + nm)) or S.sym(inner.args[0] + nm)
+            if nm == "len" and len(x.args) == 2 and rank is not None and S.show(x.args[1]) in (arr + ".shape",):
+                return S.lift(rank)
+        return None
+
+    out = SC.canon_np(e)
+    for _ in range(5):
+        nxt = SC.fold_seq(SC.transform(out, fn))
+        if nxt == out:
+            break
+        out = nxt
+    return out
+
+
+def _spec_test(e, arr, **kw):
+    """_spec for an expression used as a condition: a bare count is its truth value"""
+    out = _spec(e, arr, **kw)
+    if kw.get("have") is not None and out == _g(_ST, *_REG["count"]):
+        return S.lift(kw["have"])
+    return out
+
+
+def _strip_widening(e):
+    """x.astype(float64) and dtype=float64 keyword arguments do not change values (only the precision they are computed in,
+    which the dtype clauses of R-C16-slots decide)"""
+    def fn(x):
+        if SC.is_call(x, ".astype") and len(x.args) >= 3 and S.show(x.args[2]) in ("numpy.float64", "np.float64"):
+            return x.args[1]
+        if x.op == "call" and any(SC.is_call(a, "kw:dtype") for a in x.args[1:] if isinstance(a, S.E)):
+            return S.call(x.args[0], *[a for a in x.args[1:] if not SC.is_call(a, "kw:dtype")])
+        if SC.is_call(x, "list"):
+            return S.call("tuple", *x.args[1:])  # a list or a tuple of the same items is the same argument to prod / sum / indexing
+        if SC.is_call(x, "numpy.sum") and len(x.args) >= 2:
+            return S.call(".sum", *x.args[1:])
+        if SC.is_call(x, "numpy.square") and len(x.args) == 2:
+            return S.power(x.args[1], S.lift(2))
+        if SC.is_call(x, "numpy.sqrt") and len(x.args) == 2:
+            return S.power(x.args[1], S.lift(Fraction(1, 2)))
+        return None
+    return SC.transform(e, fn)
+
+
+def _verdict(ctx, R, f, node, what, sc, got, want, vocab):
+    got, want = _strip_widening(got), _strip_widening(want)
+    v, info = SC.same_value(got, want)
+    if v == "equal":
+        return True
+    calls, syms = SC.vocabulary(got)
+    outside = {c for c in calls if not str(c).startswith("kw:")} - vocab
+    if v == "differ" and not outside and not SC.residual_conditions(got) and not S.has_unknown(got):
+        ctx.bad(R, f, node, "[%s] %s ; documented: %s (witness over the sub-terms: %s)" % (sc, S.show(got)[:240], S.show(want)[:240], str(info)[:160]), what)
+    else:
+        ctx.error(R, "cannot decide [%s] %s: %s -- %s" % (sc, what, ("constructs outside the rule's vocabulary: " + ", ".join(sorted(map(str, outside)))) if outside else
+                                                          (str(info)[:120] if info else "unresolved condition"), S.show(got)[:200]))
+    return False
+
+
+_ACC_VOCAB = {"stored", "getitem", "tuple", "slice", "list", ".sum", "numpy.prod", "numpy.zeros", "len", ".astype", "comp", "range"}
+
+
+def acc_values(ctx, R="R-C16-slots"):
+    """the statistics matrix after an accumulator, as a value: count += number of vectors, sums += x, squares += x^2"""
+    prog = ctx.prog
+    c = _std(prog)
+    for name in ("_accumulate_vector", "_accumulate_tensor"):
+        f = prog.own_method(c, name)
+        arr = f.params[1]
+        ev = SymEval(prog, f).run()
+        st = ev.env.get("self._stats")
+        ctx.need(st is not None, R, "%s does not assign or update self._stats" % name)
+        x = S.sym(arr)
+        scen = [(None, None)] if name.endswith("vector") else [(2, 0), (2, -1), (3, 1), (3, -1), (3, 0)]
+        what = "%s adds the number of vectors to the count, x to the sums and x^2 to the squares (reduced over all axes but the coefficient axis)" % name
+        okc = 0
+        for stats_none in (True, False):
+            for rank, axis in scen:
+                sc = "%s call%s" % ("first" if stats_none else "later", "" if rank is None else ", rank %d, axis %d" % (rank, axis))
+                got = _spec(st, arr, stats_none=stats_none, rank=rank, axis=axis)
+                if rank is None:
+                    ncoef = S.call("len", x)
+                    incs = {"count": S.ONE, "sums": x, "squares": S.power(x, S.lift(2))}
+                else:
+                    ncoef = S.call("getitem", S.sym(arr + ".shape"), S.lift(axis))
+                    other = [k for k in range(rank) if k != axis % rank]
+                    ot = S.call("tuple", *[S.lift(k) for k in other])
+                    incs = {"count": S.call("numpy.prod", S.call("tuple", *[S.call("getitem", S.sym(arr + ".shape"), S.lift(k)) for k in other])),
+                            "sums": S.call(".sum", x, S.call("kw:axis", ot)),
+                            "squares": S.call(".sum", S.power(x, S.lift(2)), S.call("kw:axis", ot))}
+                base = S.call("numpy.zeros", S.call("tuple", S.lift(2), S.add(ncoef, S.ONE)), S.call("kw:dtype", S.sym("numpy.float64"))) if stats_none else _ST
+                if not (SC.is_call(got, "stored") and (len(got.args) - 2) % 2 == 0):
+                    ctx.error(R, "cannot decide [%s] %s: the statistics are not updated by element stores: %s" % (sc, what, S.show(got)[:160]))
+                    break
+                gbase = got.args[1]
+                if _strip_widening(gbase) != _strip_widening(base):
+                    calls, _ = SC.vocabulary(gbase)
+                    if ({c_ for c_ in calls if not str(c_).startswith("kw:")} - _ACC_VOCAB) or SC.residual_conditions(gbase) or S.has_unknown(gbase):
+                        ctx.error(R, "cannot decide [%s] %s: matrix before the update is %s" % (sc, what, S.show(gbase)[:160]))
+                    else:
+                        ctx.bad(R, f, f.node, "[%s] the statistics matrix the update starts from is %s ; documented: %s" % (sc, S.show(gbase)[:200], S.show(base)[:200]),
+                                "the matrix is created as float64 zeros of shape (2, coefficients + 1) on the first call and kept afterwards")
+                    break
+                regions = {}
+                for i_, v in zip(got.args[2::2], got.args[3::2]):
+                    regions.setdefault(i_, []).append(v)
+                want_idx = {S.call("tuple", *idx): k for k, idx in _REG.items()}
+                extra = [i_ for i_ in regions if i_ not in want_idx]
+                if extra:
+                    ctx.bad(R, f, f.node, "[%s] an unexpected region of the statistics matrix is written: %s" % (sc, S.show(extra[0])[:80]), "only count / sums / squares are updated")
+                    break
+                good = True
+                for idx_e, k in want_idx.items():
+                    vs = regions.get(idx_e, [])
+                    if len(vs) != 1:
+                        ctx.bad(R, f, f.node, "[%s] the %s region %s is written %d times by %s" % (sc, k, REGIONS[k], len(vs), name), "%s updates the %s region" % (name, k))
+                        good = False
+                        break
+                    want = S.add(S.call("getitem", gbase, idx_e), incs[k])
+                    if not _verdict(ctx, R, f, f.node, what, sc + ", " + k, vs[0], want, _ACC_VOCAB):
+                        good = False
+                        break
+                if not good:
+                    break
+                okc += 1
+            else:
+                continue
+            break
+        else:
+            ctx.ok(R, f.loc(), what, "%d scenarios (first / later call%s) evaluated" % (okc, "" if name.endswith("vector") else " x rank x axis"))
+
+
+def _dtype_of(e, arr, f64):
+    """dtype class of a specialised value: 'f64' | 'in' (the non-float64 input's own dtype) | 'py' (python scalar) | '?'"""
+    if not isinstance(e, S.E):
+        return "?"
+    if e.is_const:
+        return "py"
+    if e.op == "sym":
+        if e.args[0] == arr:
+            return "f64" if f64 else "in"
+        if e.args[0].startswith("self._stats"):
+            return "f64"
+        return "?"
+    if e.op == "call":
+        nm = e.args[0]
+        if nm == ".astype":
+            return "f64" if S.show(e.args[2]) in ("numpy.float64", "np.float64") else "?"
+        if nm in ("filled", "numpy.zeros_like", "numpy.ones_like", "numpy.empty_like", "stored", "getitem", ".sum", ".copy", "numpy.moveaxis", ".reshape"):
+            return _dtype_of(e.args[1], arr, f64)
+        if nm in ("numpy.ones", "numpy.zeros"):
+            kws = [a for a in e.args[1:] if SC.is_call(a, "kw:dtype")]
+            return "f64" if not kws or S.show(kws[0].args[1]) in ("numpy.float64", "np.float64") else "?"
+        if nm == ".mean":
+            return "f64" if _dtype_of(e.args[1], arr, f64) in ("f64", "in") else "?"
+        return "?"
+    if e.op in ("add", "mul", "neg", "truediv", "pow"):
+        ks = [_dtype_of(a, arr, f64) for a in e.args if isinstance(a, S.E)]
+        if "f64" in ks:
+            return "f64"
+        if all(k == "py" for k in ks):
+            return "py"
+        if all(k in ("py", "in") for k in ks) and e.op in ("neg",):
+            return "in"
+        return "?"
+    return "?"
+
+
+def _zeros(e):
+    def fn(x):
+        if SC.is_call(x, "numpy.zeros_like") and len(x.args) == 2:
+            return S.call("filled", x.args[1], S.ZERO)
+        return None
+    return SC.transform(e, fn)
+
+
+_APP_VOCAB = {"filled", "numpy.zeros_like", "stored", "getitem", "tuple", "slice", "list", ".sum", ".mean", "numpy.prod", "numpy.isclose", "numpy.ones", ".astype", "len", "comp", "range"}
+
+
+def apply_values(ctx, R="R-C16-apply"):
+    """the value returned by the appliers, per scenario: (x - mean) * scale with the documented mean / variance / scale"""
+    prog = ctx.prog
+    c = _std(prog)
+    count, sums, sq = (_g(_ST, *_REG[k]) for k in ("count", "sums", "squares"))
     for name in ("_apply_vector", "_apply_tensor"):
         f = prog.own_method(c, name)
-        for nv in (True, False):
-            ev = SymEval(prog, f, seed={"self._norm_var": nv, "in_place": False}, inline_props=False).run()
-            have = [n for n in f.body_nodes() if isinstance(n, ast.If) and astq.text(n.test) == "self.have_stats"]
-            ctx.need(len(have) == 1, R, "`if self.have_stats` not found in %s" % name)
-            evb = cc.body_eval(prog, f, have[0].body, seed={"self._norm_var": nv}, inline_self=True)
-            m, v_ = evb.env.get("means"), evb.env.get("varss")
-            if m is None:
-                raise AnalysisError("%s: `means` is not computed in the have_stats branch of %s; idiom not modelled" % (R, name))
-            ctx.check(m is not None and S.compare(m, mean_w, domain={})["verdict"] == "equal", R, f, have[0],
-                      "%s (norm_var=%s): mean = sums / count" % (name, nv), "mean is %s" % (S.show(m) if m is not None else None))
-            if nv or name.endswith("tensor"):
-                # variance before zero replacement
-                va = [n for n in ast.walk(have[0]) if isinstance(n, ast.Assign) and astq.is_name(n.targets[0], "varss") and evb.reached(n)]
-                vv = evb.eval_at(va[0], va[0].value) if va else None
-                ctx.check(vv is not None and S.compare(vv, var_w, domain={})["verdict"] == "equal", R, f, have[0],
-                          "%s (norm_var=%s): variance = squares / count - mean^2" % (name, nv), "variance is %s" % (S.show(vv) if vv is not None else None))
-        # x * scale - mean * scale, scale = 1/sqrt(var) iff norm_var, zero variances replaced before the division
         arr = f.params[1]
-        augs = [n for n in f.body_nodes() if isinstance(n, ast.AugAssign) and astq.is_name(n.target, arr)]
-        ops = [(type(n.op).__name__, astq.text(n.value).replace(" ", "")) for n in augs]
-        if name.endswith("vector"):
-            ok = ops == [("Mult", "scales"), ("Sub", "means*scales")]
-        else:
-            ok = ops == [("Mult", "scales[tensor_slice]"), ("Sub", "(means*scales)[tensor_slice]")]
-        ctx.check(ok, R, f, augs[0] if augs else MISSING(f.node), "%s applies x * scale - mean * scale" % name, "%s applies %s" % (name, ops))
-        sc = [n for n in f.body_nodes() if isinstance(n, ast.Assign) and astq.is_name(n.targets[0], "scales")]
-        pm = astq.parents(f)
-        by = {}
-        for n in sc:
-            gds = [a for a in astq.ancestors(pm, n) if isinstance(a, ast.If) and astq.text(a.test) == "self._norm_var"]
-            if gds:
-                by["T" if any(x is n for s_ in gds[0].body for x in ast.walk(s_)) else "F"] = astq.text(n.value).replace(" ", "")
-        ok = by.get("T") == "1/varss**0.5" and by.get("F") in ("1", "np.ones(1)")
-        ctx.check(ok, R, f, sc[0] if sc else MISSING(f.node), "%s divides by the standard deviation iff norm_var" % name, "scales are %s" % by)
-        rep = [n for n in f.body_nodes() if isinstance(n, ast.Assign) and astq.eq_text(n.targets[0], "varss[close_zero]")]
-        div = [n for n in sc if "varss" in astq.text(n.value)]
-        ok = len(rep) == 1 and astq.text(rep[0].value) == "1" and div and rep[0].lineno < div[0].lineno
-        ctx.check(ok, R, f, rep[0] if rep else MISSING(f.node), "%s replaces (near-)zero variances by 1 before dividing" % name)
-        # float64 result: conversion guard and returns
-        conv = [n for n in f.body_nodes() if isinstance(n, ast.Assign) and astq.is_name(n.targets[0], arr) and astq.text(n.value).replace(" ", "") == "%s.astype(np.float64)" % arr]
-        ok = len(conv) == 1
-        if ok:
-            gds = [astq.text(a.test).replace(" ", "") for a in astq.ancestors(pm, conv[0]) if isinstance(a, ast.If)]
-            ok = gds == ["notin_placeor%s.dtype!=np.float64" % arr]
-        ctx.check(ok, "R-C16-float64", f, conv[0] if conv else MISSING(f.node), "%s works on a float64 copy unless in_place on a float64 array" % name,
-                  "%s does not convert under `not in_place or dtype != float64`" % name)
-        for r in astq.returns_of(f):
-            ctx.check(astq.is_name(r.value, arr), "R-C16-float64", f, r, "%s returns the float64 array it worked on" % name, "%s returns %s" % (name, astq.text(r.value)))
-    hs = prog.own_method(c, "have_stats")
-    r = astq.returns_of(hs)
-    ok = len(r) == 1 and astq.eq_text(r[0].value, "self._statsisnotNoneandself._stats[0,-1]")
-    ctx.check(ok, R, hs, r[0] if r else MISSING(hs.node), "have_stats is true iff at least one vector was accumulated (count > 0)")
-    ap = prog.own_method(c, "apply")
-    rs = astq.returns_of(ap)
-    txt = sorted(astq.text(x.value).replace(" ", "") for x in rs)
-    ok = txt == sorted(["self._apply_tensor(features,axis,in_place)", "self._apply_vector(features,in_place)"])
-    ctx.check(ok, R, ap, ap.node, "apply forwards features, axis and in_place unchanged to the vector / tensor body", "apply returns %s" % txt)
+        ev = SymEval(prog, f).run()
+        ctx.need(len(ev.returns) >= 1, R, "%s has no return" % name)
+        x = S.sym(arr)
+        what = "%s returns (x - mean) * scale with mean = sums / count, scale = 1 / sqrt(squares / count - mean^2) iff norm_var (zero variances replaced by 1)" % name
+        tens = name.endswith("tensor")
+        n_ok = 0
+        done = False
+        for have in (True, False):
+            for nv in (True, False):
+                for ip, f64 in ((True, True), (True, False), (False, True)):
+                    for anyzero in ((True, False) if nv else (False,)):
+                        for rank, axis in ([(None, None)] if not tens else [(2, 0), (3, -1), (3, 1)]):
+                            for single, absent in [(s_, a_) for s_ in ((True, False) if (tens and not have) else (None,)) for a_ in ((True, False) if not have else (False,))]:
+                                sc = "statistics %s, norm_var=%s, in_place=%s, %s input%s%s%s" % (
+                                    "accumulated" if have else ("absent" if absent else "empty (count 0)"), nv, ip, "float64" if f64 else "other-dtype", ", a zero variance" if anyzero else "",
+                                    "" if rank is None else ", rank %d, axis %d" % (rank, axis), "" if single is None else (", single vector" if single else ", several vectors"))
+                                kw = dict(stats_none=False if have else absent, have=have, norm_var=nv, ip=ip, f64=f64, anyzero=anyzero, rank=rank, axis=axis, single=single)
+                                W = x if (ip and f64) else S.call(".astype", x, S.sym("numpy.float64"))
+                                raising = (not have) and nv and (single is not False)
+                                # which exit is taken in the scenario
+                                taken = None
+                                for g, v, node in ev.returns:
+                                    gs = _spec_test(g, arr, **kw)
+                                    if gs.is_const and S.truthy(gs):
+                                        taken = (v, node)
+                                        break
+                                    if not gs.is_const:
+                                        taken = "undecided"
+                                rs = [_spec_test(g, arr, **kw) for g, _ in ev.raises]
+                                raised = any(r.is_const and S.truthy(r) for r in rs)
+                                if raising:
+                                    if raised:
+                                        n_ok += 1
+                                    elif any(not r.is_const for r in rs):
+                                        ctx.error(R, "cannot decide [%s]: raise conditions %s" % (sc, [S.show(r)[:80] for r in rs if not r.is_const][:2]))
+                                        done = True
+                                    else:
+                                        ctx.bad(R, f, f.node, "[%s] %s does not refuse to standardise the variance without statistics" % (sc, name),
+                                                "variance normalisation without global statistics is refused (ValueError)")
+                                        done = True
+                                    if done:
+                                        break
+                                    continue
+                                if raised and not any(not r.is_const for r in rs):
+                                    ctx.bad(R, f, f.node, "[%s] %s raises although the documented result exists" % (sc, name), what)
+                                    done = True
+                                    break
+                                if taken is None or taken == "undecided":
+                                    ctx.error(R, "cannot decide [%s]: which return of %s is taken" % (sc, name))
+                                    done = True
+                                    break
+                                got = _spec(taken[0], arr, **kw)
+                                dk = _dtype_of(got, arr, f64)
+                                if dk in ("in", "py"):
+                                    ctx.bad("R-C16-float64", f, taken[1], "[%s] %s returns an array of the input's own dtype (%s), not float64" % (sc, name, S.show(got)[:120]),
+                                            "%s returns a float64 array" % name)
+                                    done = True
+                                    break
+                                if dk == "?":
+                                    ctx.error("R-C16-float64", "cannot decide the dtype of the value %s returns in [%s]: %s" % (name, sc, S.show(got)[:160]))
+                                    done = True
+                                    break
+                                if not have and (single is not False):
+                                    want = S.call("filled", W, S.ZERO)
+                                else:
+                                    if have:
+                                        cnt, M, V = count, S.truediv(sums, count), None
+                                        V = S.sub(S.truediv(sq, count), S.power(M, S.lift(2)))
+                                    else:
+                                        other = [k for k in range(rank) if k != axis % rank]
+                                        ot = S.call("tuple", *[S.lift(k) for k in other])
+                                        cnt = S.call("numpy.prod", S.call("tuple", *[S.call("getitem", S.sym(arr + ".shape"), S.lift(k)) for k in other]))
+                                        M = S.call(".mean", W, S.call("kw:axis", ot))
+                                        V = S.sub(S.truediv(S.call(".sum", S.power(W, S.lift(2)), S.call("kw:axis", ot)), cnt), S.power(M, S.lift(2)))
+                                    if nv:
+                                        V2 = S.call("stored", V, S.call("numpy.isclose", V, S.ZERO), S.ONE) if anyzero else V
+                                        Sc = S.truediv(S.ONE, S.power(V2, S.lift(Fraction(1, 2))))
+                                    else:
+                                        Sc = None
+                                    if tens:
+                                        items = [S.NONE] * rank
+                                        items[axis] = S.call("slice", S.NONE, S.NONE, S.NONE)
+                                        SLI = S.call("tuple", *items)
+                                        if Sc is None:
+                                            want = S.sub(W, S.call("getitem", M, SLI))
+                                        else:
+                                            want = S.sub(S.mul(W, S.call("getitem", Sc, SLI)), S.mul(S.call("getitem", M, SLI), S.call("getitem", Sc, SLI)))
+                                    else:
+                                        want = S.sub(W, M) if Sc is None else S.sub(S.mul(W, Sc), S.mul(M, Sc))
+                                got = _zeros(_ones(got))
+                                if not _verdict(ctx, R, f, taken[1], what, sc, got, want, _APP_VOCAB):
+                                    done = True
+                                    break
+                                n_ok += 1
+                            if done:
+                                break
+                        if done:
+                            break
+                    if done:
+                        break
+                if done:
+                    break
+            if done:
+                break
+        if not done:
+            ctx.ok(R, f.loc(), what, "%d scenarios evaluated" % n_ok)
+            ctx.ok("R-C16-float64", f.loc(), "%s returns a float64 array (the input itself only when in_place on a float64 array)" % name, "%d scenarios" % n_ok)
+
+
+def _ones(e):
+    """np.ones(1)[...] broadcast as a factor is the factor 1"""
+    def fn(x):
+        if SC.is_call(x, "numpy.ones"):
+            return S.ONE
+        if SC.is_call(x, "getitem") and len(x.args) == 3 and x.args[1].is_const and SC._pure_reshape_index(x.args[2]):
+            return x.args[1]
+        return None
+    return SC.transform(SC.distribute_reshape(e), fn)
 
 
 def derived_state(ctx, R="R-C16-derived-state"):
@@ -231,36 +530,42 @@ def derived_state(ctx, R="R-C16-derived-state"):
 
 
 def dimcheck(ctx, R="R-C16-dimcheck"):
+    """a coefficient count that differs from the stored width - 1 raises ValueError, before anything is written"""
     prog = ctx.prog
     c = _std(prog)
     for name in ("_accumulate_vector", "_accumulate_tensor", "_apply_vector", "_apply_tensor"):
         f = prog.own_method(c, name)
-        cfg = CFG(f.node)
-        dom = cfg.dominators()
-        rs = [r for r in astq.raises_of(f) if astq.raise_type(prog, f, r) == "ValueError"]
-        pm = astq.parents(f)
-        chk = None
-        for r in rs:
-            for a in astq.ancestors(pm, r):
-                if isinstance(a, ast.If) and "self._stats.shape[1]!=num_coeffs+1" in astq.text(a.test).replace(" ", ""):
-                    chk = a
-        ctx.check(chk is not None, R, f, f.node, "%s raises ValueError when the coefficient count differs from the stored width - 1" % name,
-                  "%s has no ValueError under `self._stats.shape[1] != num_coeffs + 1`" % name)
-        if chk is None:
+        arr = f.params[1]
+        ev = SymEval(prog, f).run()
+        hit, undecided = None, []
+        for g, node in ev.raises:
+            gs = _spec(g, arr, stats_none=False, dims_match=False, rank=(2 if name.endswith("tensor") else None), axis=(0 if name.endswith("tensor") else None))
+            if gs.is_const and S.truthy(gs):
+                hit = node
+                break
+            if not gs.is_const:
+                undecided.append(S.show(gs)[:100])
+        what = "%s raises ValueError when the coefficient count differs from the stored width - 1" % name
+        if hit is None and undecided:
+            ctx.error(R, "cannot decide whether %s refuses a coefficient-count mismatch: raise conditions %s" % (name, undecided[:2]))
             continue
-        nc = cfg.node(chk)
-        # the check precedes every += on the statistics and every in-place op on the data
+        ctx.check(hit is not None, R, f, f.node, what, "%s raises nothing when self._stats.shape[1] != coefficient count + 1 (statistics present)" % name)
+        if hit is None:
+            continue
+        exc = hit.exc.func if isinstance(hit.exc, ast.Call) else hit.exc
+        ctx.check(exc is not None and astq.text(exc).split(".")[-1] == "ValueError", R, f, f.node, "%s: the mismatch is reported as a ValueError" % name,
+                  "the mismatch raises %s" % (astq.text(exc) if exc is not None else "a bare raise"))
+        # nothing is written in that scenario: the path condition of every in-place update is false when the counts differ
+        kw = dict(stats_none=False, dims_match=False, rank=(2 if name.endswith("tensor") else None), axis=(0 if name.endswith("tensor") else None))
         for n in f.body_nodes():
             if isinstance(n, ast.AugAssign):
-                nn = cfg.node(n)
-                # the creation branch (stats is None) legitimately bypasses the comparison
-                reach_without = cfg.paths_avoiding(CFG.ENTRY, nn, {nc})
-                create = [a for a in f.body_nodes() if isinstance(a, ast.If) and astq.text(a.test) == "self._stats is None"]
-                ok = not reach_without or bool(create)
-                ctx.check(ok, R, f, n, "the dimension check precedes this update", "an update can run before the dimension check")
-        nm = [n for n in f.body_nodes() if isinstance(n, ast.Assign) and astq.is_name(n.targets[0], "num_coeffs")]
-        want = "len(%s)" % f.params[1] if name.endswith("vector") else "%s.shape[axis]" % f.params[1]
-        ctx.check(len(nm) == 1 and astq.text(nm[0].value) == want, R, f, nm[0] if nm else MISSING(f.node), "num_coeffs is the length of the coefficient axis")
+                try:
+                    gn = _spec(ev.guard_of(n), arr, **kw)
+                except Exception:
+                    continue
+                if gn.is_const:
+                    ctx.check(not S.truthy(gn), R, f, n, "the dimension check precedes this update",
+                              "this update runs although the coefficient count differs from the stored width (the check comes later)")
 
 
 def readonly(ctx, R="R-C16-readonly"):
